@@ -34,6 +34,7 @@ var stateReviewed = map[string]string{
 	"transform/tdrop.dropTransform.totalMatched":      "the documented sampling state of `drop` with a rate, as totalDropped",
 	"base.FieldSetExtractor.fieldSetBuffer":           "scratch slice: Extract overwrites every element (one per locator, the slice is made with len(locators)) before it returns it; nothing of the previous record survives",
 	"base.LogProcessCounterSet.mergeKeyBuffer":        "scratch buffer: stored back truncated to zero length; only its capacity survives from record to record",
+	"output/fluentdforward.eventSerializer.buffer":    "serialization scratch buffer: SerializeRecord writes from position 0 and returns buffer[:position]; position only advances over bytes this call wrote (the encoders return the new position, C10.R1, C07.R4c), so nothing of an earlier record is inside the returned prefix; the stream is consumed before the next call (C12.R4)",
 	"base.LogProcessCounterSet.currentCustomCounters": "the selection made for the record in hand: SelectMetricKeySet stores it unconditionally on every call, from the pair looked up by this record's keys, and runs before any transform can count (C19.R6)",
 }
 
@@ -42,6 +43,7 @@ func init() {
 	register("C13", "C15.R6", ruleStateF13)
 	register("C09", "C15.R6", ruleStateF13)
 	register("C19", "C15.R6", ruleStateF13)
+	register("C10", "C15.R6", ruleStateF13)
 	register("C19", "C12.R6", ruleC12R6) // attribution: the label values a record is counted under are keyed by strings of the record
 }
 
@@ -57,6 +59,16 @@ func ruleStateF13(c *Ctx) {
 	roots = append(roots, c.P.Fn(aParse))
 	// metric attribution: which counters a record is counted under is decided by SelectMetricKeySet from the record's keys
 	roots = append(roots, c.P.Fn(aSelectKeySet))
+	// serialization: the event emitted for a record is a function of that record (C10)
+	for _, fn := range c.P.universe {
+		if fn.Signature.Recv() == nil {
+			continue
+		}
+		switch fn.Name() {
+		case "SerializeRecord", "WriteFieldBody", "MaxFieldLength":
+			roots = append(roots, fn)
+		}
+	}
 	reach := c.P.reachableFrom(roots, func(f *ssa.Function) bool {
 		return !c.P.inUni[f] || constructionBoundary[anchorName(f)]
 	})
